@@ -1069,6 +1069,9 @@ def c04_bodies():
         "mapvalues": [draw(g("MapOfNValues", val=IntRange(0, 3), minLen=0, maxLen=5), "m"), draw(g("Bool"), "b")],
         "string": [draw(g("StringN", minLen=-1, maxLen=-1, maxBytes=4), "s"), draw(g("Int"), "y")],
         "stringof": [draw(g("StringOfN", elem=g("RuneFrom", expr="a\u00e9\u4e16\U0001f600"), minLen=0, maxLen=6, maxBytes=7), "s"), draw(g("Int8"), "y")],
+        # a rune generator that also yields values that are not valid runes (surrogates): they are rejected, like runes that do not fit any more
+        "stringof_invalid": [draw(g("StringOfN", elem=g("RuneSampled", items=["97", "233", "0x4e16", "0xD800", "0xDFFF"]), minLen=-1, maxLen=-1, maxBytes=5), "s%d" % j) for j in range(10)]
+                            + [draw(g("Int8"), "y")],
         "filter": [draw(g("Filter", elem=IntRange(0, 1000), pred="mod3"), "x"), draw(g("SliceOf", elem=g("Bool")), "b")],
         "sampled": [draw(g("SampledFrom", items=["1", "2", "3"]), "c"), draw(g("Int32"), "v"), draw(g("SampledFrom", items=["7", "8", "9", "10", "11"]), "d")],
         "custom": [draw(g("Custom", elem=g("Int16"), body=[draw(IntRange(0, 5), "a", "a"), iff("a", "le", 2, [op("skip")])]), "c"), draw(g("Uint8"), "t")],
